@@ -99,7 +99,10 @@ Fixpoint elf_next (fuel : nat) (p : profile) (m : mem) (it : elf_iter) : res (op
       ty <- elf_section_type_of m s ;;
       if is_unused ty then elf_next f p m it' else Val (Some s, it')
   end.
-Definition elf_fuel (it : elf_iter) : nat := S (N.to_nat (el_rem it)).
+(* next() can only skip entries when the entry size is 40 or 64 (any other size panics at the first
+   entry), so that many steps suffice *)
+Definition elf_steps (it : elf_iter) : N := if (el_es it =? 40) || (el_es it =? 64) then el_rem it else 1.
+Definition elf_fuel (it : elf_iter) : nat := S (N.to_nat (elf_steps it)).
 
 (* ---- framebuffer ----------------------------------------------------------------------- *)
 Inductive fbtype :=
